@@ -181,7 +181,8 @@ def execute(case):
         ukw = {} if 'oRT' in act else {'units': unit}
         aukw = {} if 'oRT' in ads_act else {'units': unit}
         fmt = {'species_delimiter': o['sd'], 'reaction_delimiter': o['rd'], 'float_format': o['ff'],
-               'column_delimiter': o['cd'], 'act_method_name': act, 'act_unit': unit}
+               'column_delimiter': o['cd'], 'act_method_name': act, 'act_unit': unit,
+               'stoich_format': o.get('sf', '.0f')}
 
         def model(r, sden_op, ads_method):
             if r.is_adsorption:
@@ -224,6 +225,7 @@ def execute(case):
                                                    ads_act_method=o['ea_ads_act'],
                                                    float_format=o['ea_ff'], species_delimiter=o['sd'],
                                                    reaction_delimiter=o['ea_rd'],
+                                                   stoich_format=o.get('sf', '.0f'),
                                                    column_delimiter=o['cd']),
                 d, 'EAg.inp' if gas else 'EAs.inp',
                 {'gas': gas, 'ncond': len(conds), 'model': [ea_model(r) for r in rxs]})
@@ -296,7 +298,7 @@ def _options(rnd, species, need_ts_free):
     return {'T': rnd.choice([298.15, 500., round(rnd.uniform(300., 1100.), 1)]),
             'P': rnd.choice([None, None, 1., 2.5, 0.1]),
             'act': rnd.choice(acts), 'ads_act': rnd.choice(ADS_ACTS), 'unit': rnd.choice(UNITS),
-            'ff': rnd.choice(FLOATS), 'sd': rnd.choice(['+', '+', ' + ']),
+            'ff': rnd.choice(FLOATS), 'sf': rnd.choice(['.0f', '.0f', '.2f', '.1f']), 'sd': rnd.choice(['+', '+', ' + ']),
             'rd': rnd.choice(['=', '<=>', '=>', ' = ', ' <=> ']), 'cd': rnd.choice(['  ', ' ', '    ']),
             'sden_op': rnd.choice(['min', 'max', 'sum', 'mean']), 'mw': rnd.random() < 0.7,
             'ea_act': rnd.choice(ea_acts), 'ea_ads_act': rnd.choice(EA_ADS_ACTS),
@@ -444,8 +446,7 @@ def _tags(case, file):
     sp = case['species']
     g2s = any(all(sp[i - 1]['ph'] == 'G' for c, i in r['lhs']) and
               any(sp[i - 1]['ph'] != 'G' for c, i in r['rhs']) for r in case['rx'])
-    return {'file': file, 'kind': case['kind'], 'gas_reactants_surface_product': g2s,
-            'act': case['opts']['act']}
+    return {'file': file, 'kind': case['kind'], 'gas_reactants_surface_product': g2s}
 
 
 def _file_of(ev):
@@ -527,7 +528,7 @@ def run(ctx):
     ctx.coverage['rule'] = (
         'a case is one mechanism (species with phase/site/occupancy/elements, catalyst sites, '
         'reactions with integer stoichiometry, adsorption flag, transition state) plus writer options; '
-        'tlc cases are all written sessions of MC_ChemkinDoc_cases.cfg (sampled in the quick tier) '
+        'tlc cases are a seeded sample (700 quick / 3000 thorough) of the written sessions of MC_ChemkinDoc_cases.cfg '
         'carrying the documents TLC expects, rand cases are random mechanisms of 1-40 reactions over '
         '2-30 species on 1-3 sites; every case is written by write_gas, write_surf, write_EA (both), '
         'write_T_flow, write_tube_mole, read back by read_reactions and judged event by event by '
@@ -537,35 +538,41 @@ def run(ctx):
         cases = [ctx.replay_case['case']]
     else:
         rnd = random.Random(ctx.seed)
-        # (S->C) case generation runs beside the design model
+        # (D) design model, the variants TLC must reject, and (S->C) case generation, side by side
         box = {}
 
         def gen():
-            box['r'] = core.run_tlc('MC_ChemkinDoc', 'MC_ChemkinDoc_cases', workers=1, timeout=1500)
-        th = threading.Thread(target=gen)
-        th.start()
-        # (D) design model and the variants TLC must reject
+            box['cases'] = core.run_tlc('MC_ChemkinDoc', 'MC_ChemkinDoc_cases', workers=1, timeout=1500)
+
+        def variant(cfg):
+            box[cfg] = ctx.model('MC_ChemkinDoc', cfg, workers=1, expect_ok=False)
+        threads = [threading.Thread(target=gen)] + [threading.Thread(target=variant, args=(cfg,))
+                                                    for cfg, _ in REJECTED]
+        for th in threads:
+            th.start()
         ctx.model('MC_ChemkinDoc', ctx.pick('MC_ChemkinDoc', 'MC_ChemkinDoc_thorough'),
-                  workers=max(2, core.NCPU - 2))
+                  workers=max(2, core.NCPU - 4))
+        for th in threads:
+            th.join()
+        if any(k not in box for k in ['cases'] + [cfg for cfg, _ in REJECTED]):
+            raise core.MachineryError('a TLC run did not return: %s' % sorted(box))
         for cfg, inv in REJECTED:
-            bad = ctx.model('MC_ChemkinDoc', cfg, workers=2, expect_ok=False)
+            bad = box[cfg]
             if bad.ok or bad.violated != inv:
                 raise core.MachineryError('%s should be rejected with %s, got ok=%s violated=%s\n%s'
                                           % (cfg, inv, bad.ok, bad.violated, bad.out[-1500:]))
             ctx.notes.append('design model rejects %s: %s violated' % (cfg, inv))
-        th.join()
-        r = box['r']
+        r = box['cases']
         if not r.ok:
             raise core.MachineryError('case generation failed:\n' + r.out[-2000:])
-        recs = [core.parse_tla(p) for p in r.prints() if core.tagged(p, 'CASE')]
-        ctx.coverage['tlc_cases'] = len(recs)
-        if not recs:
+        chunks = ['<< "CASE",' + c for c in r.out.split('<< "CASE",')[1:]]
+        ctx.coverage['tlc_cases'] = len(chunks)
+        if not chunks:
             raise core.MachineryError('TLC printed no cases')
-        if ctx.quick:
-            rnd.shuffle(recs)
-            recs = recs[:700]
+        chunks = rnd.sample(chunks, min(ctx.pick(700, 3000), len(chunks)))
+        recs = [core.parse_tla(c) for c in chunks]
         cases = [tlc_case(rec[1], rec[2], rnd, 't%d' % k) for k, rec in enumerate(recs)]
-        for k in range(ctx.pick(260, 4000)):
+        for k in range(ctx.pick(260, 1500)):
             cases.append(random_case(rnd, 'r%d' % k, big=(k % 4 == 0)))
     results = core.pmap(_safe_execute, cases)
     traces = []
